@@ -23,7 +23,7 @@ def programs(seed, tier):
     cs = [c for c in worlds.corpus(max_bytes=4000)]
     rng = vsim.Rng(seed, "c18-programs")
     rng.shuffle(cs)
-    n = 6 if tier == "quick" else 40
+    n = 6 if tier == "quick" else 120
     progs = [("hello.as", worlds.HELLO)]
     for name, path, sz in cs:
         if len(progs) >= n * 3:	# candidates; validated by the fault-free run
